@@ -606,6 +606,15 @@ fn run_op(st: &mut St, op: &Value) -> Value {
             gblocks(&Projector::project(t.iter(), &k.parent()))
         }
         "to_markdown" => json!(gr(st).to_markdown(&key(op))),
+        "format_twice" => {
+            // the real thing: format, read the formatted text back, format again
+            let k = key(op);
+            let t1 = gr(st).to_markdown(&k);
+            let mut g2 = Graph::new();
+            g2.from_markdown(k.clone(), &t1, MarkdownReader::new());
+            let t2 = g2.to_markdown(&k);
+            json!([t1, t2])
+        }
         "is_ref_url" => json!(liwe::model::is_ref_url(op["url"].as_str().unwrap())),
         "render_reread" => {
             // real writer, then real reader
